@@ -281,3 +281,36 @@ package types
 //@   ensures def: result == maxBytes - 11 - 626 - (94 + 111 * valsCount)
 //@   ensures nonneg: result >= 0
 //@   checks ovf
+
+// ---- placeholders used by state.updateState (the validator-set algebra itself is C08's subject) ----
+//@ func ValidatorSet.Copy
+//@   trusted
+//@   assigns nothing
+//@   ensures fresh: result != nil
+//@ func ValidatorSet.UpdateWithChangeSet
+//@   trusted
+//@   assigns vals.Validators, vals.Proposer, vals.totalVotingPower, all(Validator.ProposerPriority)
+//@ func ValidatorSet.IncrementProposerPriority
+//@   trusted
+//@   assigns vals.Proposer, all(Validator.ProposerPriority)
+//@ func UpdateConsensusParams
+//@   trusted
+//@   assigns nothing
+//@ func ValidateConsensusParams
+//@   trusted
+//@   assigns nothing
+
+//@ func Header.Populate
+//@   assigns h.Version, h.ChainID, h.Time, h.LastBlockID, h.ValidatorsHash, h.NextValidatorsHash, h.ConsensusHash, h.AppHash, h.LastResultsHash, h.ProposerAddress
+//@   ensures set: h.Version == version && h.ChainID == chainID && h.Time == timestamp && h.LastBlockID == lastBlockID && h.ValidatorsHash == valHash &&
+//@     | h.NextValidatorsHash == nextValHash && h.ConsensusHash == consensusHash && h.AppHash == appHash && h.LastResultsHash == lastResultsHash && h.ProposerAddress == proposerAddress
+
+//@ func MakeBlock
+//@   assigns lastCommit.hash
+//@   ensures made: result != nil && result.Header.Height == height && result.LastCommit == lastCommit && result.Data.Txs == txs && result.Evidence.Evidence == evidence
+//@   ensures hashes: result.Header.LastCommitHash == Commit.Hash(lastCommit) && result.Header.DataHash == Data.Hash(&result.Data) && result.Header.EvidenceHash == EvidenceData.Hash(&result.Evidence)
+
+// ASSUMED: splitting a block into parts does not modify the block.
+//@ func Block.MakePartSet
+//@   trusted
+//@   assigns nothing
